@@ -280,6 +280,7 @@ struct Stats {
     zip_loops: usize,
     refpat_for: usize,
     for_indexed: usize,
+    continue_elim: usize,
 }
 
 struct OpRewriter<'a> {
@@ -434,6 +435,58 @@ impl<'a> VisitMut for ForIndex<'a> {
             return;
         }
         syn::visit_mut::visit_expr_mut(self, e);
+    }
+}
+
+/// R20: continue elimination at the top level of a loop body: `if C { S; continue; } REST` → `if C { S } else { REST }`
+/// (opt-in; unlabeled `continue` only, `if` without `else`). Verus' `for` loops have no `continue`.
+struct ContinueElim<'a> {
+    stats: &'a mut Stats,
+}
+fn elim_continue(stmts: Vec<syn::Stmt>, count: &mut usize) -> Vec<syn::Stmt> {
+    let mut out = vec![];
+    let mut it = stmts.into_iter();
+    while let Some(st) = it.next() {
+        let mut handled = false;
+        if let syn::Stmt::Expr(syn::Expr::If(ifx), _) = &st {
+            if ifx.else_branch.is_none() {
+                if let Some(syn::Stmt::Expr(syn::Expr::Continue(c), _)) = ifx.then_branch.stmts.last() {
+                    if c.label.is_none() {
+                        let mut then = ifx.then_branch.stmts.clone();
+                        then.pop();
+                        let cond = &ifx.cond;
+                        let rest: Vec<syn::Stmt> = elim_continue(it.by_ref().collect(), count);
+                        *count += 1;
+                        let e: syn::Expr = if rest.is_empty() {
+                            syn::parse_quote!(if #cond { #(#then)* })
+                        } else {
+                            syn::parse_quote!(if #cond { #(#then)* } else { #(#rest)* })
+                        };
+                        out.push(syn::Stmt::Expr(e, None));
+                        handled = true;
+                    }
+                }
+            }
+        }
+        if !handled {
+            out.push(st);
+        }
+    }
+    out
+}
+impl<'a> VisitMut for ContinueElim<'a> {
+    fn visit_expr_mut(&mut self, e: &mut syn::Expr) {
+        syn::visit_mut::visit_expr_mut(self, e);
+        let body: Option<&mut syn::Block> = match e {
+            syn::Expr::ForLoop(f) => Some(&mut f.body),
+            syn::Expr::While(w) => Some(&mut w.body),
+            syn::Expr::Loop(l) => Some(&mut l.body),
+            _ => None,
+        };
+        if let Some(b) = body {
+            let stmts = std::mem::take(&mut b.stmts);
+            b.stmts = elim_continue(stmts, &mut self.stats.continue_elim);
+        }
     }
 }
 
@@ -1157,6 +1210,10 @@ fn emit_fn(ctx: &mut Ctx, d: &FnDir, out: &mut String) {
     if d.opts.contains_key("r17") {
         ZipLoop { stats: &mut stats }.visit_block_mut(&mut block);
     }
+    // ---- R20 (opt-in)
+    if d.opts.contains_key("r20") {
+        ContinueElim { stats: &mut stats }.visit_block_mut(&mut block);
+    }
     // ---- R19 (opt-in)
     if let Some(w) = d.opts.get("r19") {
         let which: Vec<usize> = w.split(',').map(|x| x.trim().parse().unwrap()).collect();
@@ -1471,7 +1528,7 @@ fn emit_fn(ctx: &mut Ctx, d: &FnDir, out: &mut String) {
     let (nreq, nens) = count_clauses(&d.spec);
     let ninv: usize = d.loops.values().map(|s| count_clauses(&s.replace("invariant", "ensures")).1).sum();
     let rep = format!(
-        "{{\"kind\":\"fn\",\"name\":{},\"file\":{},\"item\":{},\"closure\":{},\"src_lines\":[{},{}],\"src_hash\":\"{:016x}\",\"attrs_dropped\":{},\"rewrites\":{{\"R1_binops\":{},\"R1_neg\":{},\"R2_rt_params\":{},\"R3_tx_lifted\":{},\"R5_letchains\":{},\"R6_for_desugared\":{},\"R10_optmap_inlined\":{},\"R13_guard_match\":{},\"R14_nested_fn_calls_renamed\":{},\"R16_for_each_loops\":{},\"R17_zip_loops\":{},\"R18_ref_pattern_for\":{},\"R19_for_indexed\":{},\"loops\":{},\"substitutions\":[{}]}},\"clauses\":{{\"requires\":{},\"ensures\":{},\"invariants\":{}}},\"novac\":{}}}",
+        "{{\"kind\":\"fn\",\"name\":{},\"file\":{},\"item\":{},\"closure\":{},\"src_lines\":[{},{}],\"src_hash\":\"{:016x}\",\"attrs_dropped\":{},\"rewrites\":{{\"R1_binops\":{},\"R1_neg\":{},\"R2_rt_params\":{},\"R3_tx_lifted\":{},\"R5_letchains\":{},\"R6_for_desugared\":{},\"R10_optmap_inlined\":{},\"R13_guard_match\":{},\"R14_nested_fn_calls_renamed\":{},\"R16_for_each_loops\":{},\"R17_zip_loops\":{},\"R18_ref_pattern_for\":{},\"R19_for_indexed\":{},\"R20_continue_eliminated\":{},\"loops\":{},\"substitutions\":[{}]}},\"clauses\":{{\"requires\":{},\"ensures\":{},\"invariants\":{}}},\"novac\":{}}}",
         json_str(&qual),
         json_str(&d.file),
         json_str(&d.path),
@@ -1493,6 +1550,7 @@ fn emit_fn(ctx: &mut Ctx, d: &FnDir, out: &mut String) {
         stats.zip_loops,
         stats.refpat_for,
         stats.for_indexed,
+        stats.continue_elim,
         stats.loops,
         subs_done.iter().map(|s| json_str(s)).collect::<Vec<_>>().join(","),
         nreq,
